@@ -22,6 +22,8 @@ ASSUMPTIONS = ["zstd encode_all / decode_all are inverse (library)", "Redis comm
 TRUSTED = ["zstd crate"]
 
 MUTANTS = [
+    {"name": "precompressed-values-skipped", "file": "src/proxy/compress.rs", "old": "        let compressed = match zstd::encode_all(value, 1) {", "new": "        if value.starts_with(&[0x28, 0xB5, 0x2F, 0xFD]) {\n            return Ok(());\n        }\n        let compressed = match zstd::encode_all(value, 1) {", "expect": "C20.D5:encode-unconditional"},
+    {"name": "single-key-mget-not-split", "file": "src/proxy/executor.rs", "old": "            DataCmdType::Mget => {\n                CmdReplyFuture::Right", "new": "            DataCmdType::Mget if cmd_ctx.get_cmd().get_command_element(2).is_some() => {\n                CmdReplyFuture::Right", "expect": "C20.D5:dispatch:MGET"},
     {"name": "setex-value-index", "file": "src/proxy/compress.rs", "old": "DataCmdType::Psetex | DataCmdType::Setex => OptionalMulti::Single(3),", "new": "DataCmdType::Psetex | DataCmdType::Setex => OptionalMulti::Single(2),", "expect": "C20.D1:SETEX"},
     {"name": "getset-not-decompressed", "file": "src/proxy/compress.rs", "old": "            DataCmdType::Get | DataCmdType::Getset => {\n                let compressed = if let", "new": "            DataCmdType::Get => {\n                let compressed = if let", "expect": "C20.D2:GETSET"},
     {"name": "append-not-restricted", "file": "src/proxy/compress.rs", "old": "            DataCmdType::Append\n            | DataCmdType::Bitcount", "new": "            DataCmdType::Bitcount", "expect": "C20.D3:APPEND"},
@@ -38,6 +40,7 @@ def run(ctx):
     ctx.rule("C20.D1", "write side: value positions per command equal the Redis syntax table; nothing else is ever compressed", exhaustive=True)
     ctx.rule("C20.D2", "read side: GET / GETSET bulk and MGET elements are decoded, other replies untouched, no size cap", exhaustive=True)
     ctx.rule("C20.D3", "string commands partition: compressed-write / decompressed-read / refused; disabled short-circuits", exhaustive=True)
+    ctx.rule("C20.D5", "the element transforms are unconditional on the value's content (every Ok of compress_one_element passes zstd::encode_all and the element write); string commands with a dedicated multi-key handler always take it (never the single-key path, where the compressor refuses them)")
     ctx.rule("C20.D4", "decompression is wired to the backend result handlers; compression happens in the single-key data path")
     T = cmd_tables(ctx, "C20.D1")
     if T is None:
@@ -155,6 +158,8 @@ def run(ctx):
     writes = {"change_bulk_str": calls_to(dec, "change_bulk_str"), "change_bulk_array_element": calls_to(dec, "change_bulk_array_element")}
     ctx.check(all(writes.values()), "C20.D2", "reply-rewritten-in-place", site(dec), ok="bulk reply and array elements are replaced by the decoded bytes", bad="decoded bytes are not written back (%s)" % {k: len(v) for k, v in writes.items()})
     _wiring(ctx)
+    _unconditional_transform(ctx)
+    _dispatch_table(ctx)
 
 
 def _wiring(ctx):
@@ -215,3 +220,67 @@ def _wiring(ctx):
         ctx.check(not forwards or guarded, "C20.D4", "compressed-before-redirect:handle_single_key_data_cmd", site(h, c[0][0]),
                   ok="the compressor is not applied to commands that are redirected to a peer",
                   bad="the command is compressed before routing and routing can forward it to a peer proxy (%s) whose own data path compresses it again: a value written through a redirecting proxy is stored double-compressed and read back as zstd bytes" % ", ".join(x.rsplit("::", 1)[-1] for x in forwards))
+
+
+def _unconditional_transform(ctx):
+    """symmetry of write and read side: the read side decodes every GET / GETSET / MGET bulk reply, so the write side must
+    encode every value - a value that is skipped because of what it looks like (e.g. it starts with the zstd magic) comes back
+    decoded, i.e. different from what was written"""
+    F = ctx.F
+    n = 0
+    for b in F.all_bodies(bins=False):
+        if b.is_mock() or b.kind == "Promoted" or "tests::" in b.path or not b.path.startswith("proxy::compress::"):
+            continue
+        enc = [bb for bb, t in b.calls() if (callee_of(t) or "").endswith("zstd::encode_all") or (callee_of(t) or "").endswith("::encode_all")]
+        if not enc:
+            continue
+        n += 1
+        ctx.analysed(b)
+        du = DefUse(b)
+        wr = [bb for bb, t in b.calls() if (callee_of(t) or "").rsplit("::", 1)[-1] in ("change_cmd_element", "change_element", "change_bulk_array_element")]
+        oks = [bb for bb, i, st in b.assigns() if st["place"]["l"] == 0 and st["rv"]["k"] == "agg" and st["rv"].get("variant") == "Ok"]
+        bad = [x for x in oks if cfg.path_between(b, 0, x, avoid=set(enc)) is not None or (wr and cfg.path_between(b, 0, x, avoid=set(wr)) is not None)]
+        ctx.check(bool(oks) and not bad, "C20.D5", "encode-unconditional:%s" % b.path.rsplit("::", 1)[-1], site(b, bad[0]) if bad else site(b), ok="every Ok passes encode_all and the element write",
+                  bad="%s can return Ok without encoding the value (a value skipped on a content test): the read side still decodes every reply, so such a value does not come back byte-identical" % b.path)
+        # no comparison on the value's bytes before encoding
+        peek = [bb for bb, t in b.calls() if (callee_of(t) or callee_decl(t) or "").rsplit("::", 1)[-1] in ("starts_with", "ends_with", "contains", "first", "get") and any("u8" in ty for ty in (t.get("atys") or [])[:1])
+                and not (callee_of(t) or "").endswith("get_command_element")]
+        ctx.check(not peek, "C20.D5", "no-content-test:%s" % b.path.rsplit("::", 1)[-1], site(b, peek[0]) if peek else site(b), ok="the value's bytes are not inspected before encoding", bad="%s inspects the value's bytes before encoding" % b.path)
+    ctx.floor("C20.D5", "element encoders", n, 1)
+
+
+def _dispatch_table(ctx):
+    F = ctx.F
+    b = F.one("proxy::executor::ForwardHandler::handle_data_cmd")
+    if b is None:
+        ctx.lost("C20.D5", "handle_data_cmd", "not found")
+        return
+    ctx.analysed(b)
+    adt = F.adt("proxy::command::DataCmdType")
+    gt = [(bb, t) for bb, t in b.calls() if (callee_of(t) or "").endswith("get_data_cmd_type")]
+    if adt is None or not gt:
+        ctx.lost("C20.D5", "handle_data_cmd", "DataCmdType / get_data_cmd_type not found")
+        return
+    handlers = [(bb, (callee_of(t) or "").rsplit("::", 1)[-1]) for bb, t in b.calls() if (callee_of(t) or "").rsplit("::", 1)[-1].startswith("handle_")]
+    if not ctx.floor("C20.D5", "handler calls in handle_data_cmd", len(handlers), 6):
+        return
+    names = {v["name"].upper(): i for i, v in enumerate(adt.variants)}
+    family = set(STRING_READ) | set(STRING_WRITE_VALUE_POS) | set(STRING_OTHER)
+    n = 0
+    for cmd in sorted(family):
+        vi = names.get(cmd)
+        if vi is None:
+            continue
+
+        def call(interp, bbx, term, argvals, vi=vi):
+            for _, g in gt:
+                if g is term:
+                    return Agg(adt.path, vi, ())
+            return None
+        res = Interp(F, b, Oracle(call=call)).run()
+        hs = sorted({h for bb, h in handlers if bb in res.exec_blocks})
+        ded = [h for h in hs if h != "handle_single_key_data_cmd"]
+        n += 1
+        ctx.check(not (ded and "handle_single_key_data_cmd" in hs), "C20.D5", "dispatch:%s" % cmd, site(b), ok="%s -> %s" % (cmd, hs),
+                  bad="%s has the dedicated handler %s but can also fall through to the single-key path, where the compressor does not know how to treat it (refused / not decoded): the command answers an error or undecoded data depending on its argument count" % (cmd, ded))
+    ctx.floor("C20.D5", "string commands dispatched", n, 20)
